@@ -105,6 +105,8 @@ def oracle_case(x, case) -> tuple[str, str] | None:
     if kind == "rng":
         _, r1, c1, r2, c2 = case
         s, e = call(x.xl_range, r1, c1, r2, c2)
+        if min(r1, c1, r2, c2) < 0:
+            return None if e == "IndexError" else ("negative-accepted", f"xl_range{case[1:]} -> {s!r}/{e}")
         if e:
             return ("encode-raises", f"xl_range{case[1:]} raised {e}")
         if (":" not in s) != ((r1, c1) == (r2, c2)):
@@ -164,6 +166,14 @@ def gen_cases(ctx: Ctx):
         else:
             r2, c2 = rng.randrange(1000001), rng.randrange(18278)
         rng_cases.append(("rng", r1, c1, r2, c2))
+    # a negative coordinate in ANY of the four positions (each alone, with equal and with different corners)
+    for neg in (-1, -2, -1000000):
+        for pos in range(4):
+            for base in ((2, 2, 2, 2), (2, 2, 5, 4), (0, 0, 0, 3), (7, 1, 3, 1)):
+                q = list(base)
+                q[pos] = neg
+                rng_cases.append(("rng", *q))
+    rng_cases += [("rng", -1, -1, -1, -1), ("rng", -1, 0, -1, 0), ("rng", 0, -1, 0, -1), ("rng", 3, 3, -3, -3)]
     order_cases = [("order", c, c + 1) for c in range(0, 18290)] + \
                   [("order", a, b) for a, b in (sorted(rng.sample(range(20000), 2)) for _ in range(2000))]
     return col_cases, rc_cases, rng_cases, order_cases
